@@ -323,8 +323,8 @@ def integral_oracle(name: str, p: dict, y: float, m: float, v: float):
 # noise in [0.05, 2], nu in [2.2, 30], Beta scale in [0.5, 20]; y in [-4, 4] (Beta [0.02, 0.98], Bernoulli {0, 1}).
 # The truncation error of an L-node rule depends on rho, so the envelope is tabulated per likelihood, quantity and rho-bin.
 # ENV = 5 x the largest error seen at the default L = 20 on the unchanged tree (`python -m pbt.props.c13 calibrate`:
-# 3 x 20 000 points per likelihood, corners over-weighted).  Assertions: err(L=20) <= ENV, err(L=40) <= ENV,
-# err(L=160) <= ENV / 5 ("shrinking as nodes are added" is asserted only between 20 and 160), never below FLOOR.
+# 4 x 20 000 points per likelihood, corners, bin edges and kink-on-node alignments over-weighted).
+# Assertions: err(L=20) <= ENV, err(L=40) <= ENV, err(L=160) <= ENV / 5 ("shrinking as nodes are added" is asserted only between 20 and 160), never below FLOOR.
 RHO_BINS = (0.25, 0.5, 1.0, 2.0, 3.0)
 M_RANGE = (-3.0, 3.0)
 RHO_RANGE = (0.05, 3.0)
@@ -843,13 +843,13 @@ SPEC = PropertySpec(
         "SoftmaxLikelihood: num_data != num_features (equal sizes select the deprecated transposed input layout); pyro not installed",
     ],
     subchecks=[
-        Subcheck("gh.poly_exact", run_poly, strategy=poly_strategy, quick=6000, thorough=100000, min_shard=100),
+        Subcheck("gh.poly_exact", run_poly, strategy=poly_strategy, quick=4000, thorough=100000, min_shard=100),
         Subcheck("gh.degree_2L", run_degree_2L, strategy=degree_2L_strategy, quick=1200, thorough=20000, min_shard=100),
         Subcheck("lik.integrals", run_integrals, strategy=integrals_strategy, quick=1600, thorough=30000, min_shard=50, weight=3.0),
         Subcheck("lik.conditional", run_conditional, strategy=conditional_strategy, quick=1500, thorough=20000, min_shard=100),
         Subcheck("bernoulli.marginal", run_bernoulli_marginal, strategy=bernoulli_marginal_strategy, quick=1500, thorough=20000,
                  min_shard=100),
-        Subcheck("lncdf.generated", run_lncdf, strategy=lncdf_strategy, quick=6000, thorough=200000, min_shard=200),
+        Subcheck("lncdf.generated", run_lncdf, strategy=lncdf_strategy, quick=5000, thorough=200000, min_shard=200),
         Subcheck("lncdf.grid", run_lncdf, enumerate=lncdf_grid,
                  exhaustive_note="log_normal_cdf on dense grids: [-40, 10] step 2.5e-4, +-1e-3 / +-1e-9 / +-2000 ulps around -1, "
                                  "+-0.2, 0, log-spaced 1e-12..1e6 on both sides (a grid, not the whole real line)"),
